@@ -10,7 +10,20 @@ def fresh_name(prefix):
     return f"{prefix}!{next(_fresh)}"
 
 
+INDEX_STACK = []      # indices of the enclosing symbolic comprehensions (innermost last)
+
+
 def fresh_const(prefix, sort):
+    """A fresh *value*.  Inside the element expression of a comprehension over a symbolic sequence the value may differ from
+    iteration to iteration: it is a skolem function of the enclosing indices."""
+    if INDEX_STACK:
+        f = z3.Function(fresh_name(prefix), *([z3.IntSort()] * len(INDEX_STACK)), sort)
+        return f(*INDEX_STACK)
+    return z3.Const(fresh_name(prefix), sort)
+
+
+def bound_var(prefix, sort):
+    """A fresh constant used as a bound / index variable (never index dependent)."""
     return z3.Const(fresh_name(prefix), sort)
 
 
